@@ -137,6 +137,16 @@ def cores(repo):
             doc="C12: selecting members of a named-paths group by identity (`PathsManager._get_to`, `_get_from`, `_find_one`): loops over the "
                 "(identity, csvpath) pairs `get_identified_paths_in` returns — an object list of the world, `[0]` the identity, `[1]` the csvpath."),
          [("PathsManager", "_get_to"), ("PathsManager", "_get_from"), ("PathsManager", "_find_one")]),
+        (py2lean.Core(
+            repo, "Results",
+            [("csvpath/managers/results/results_manager.py", "ResultsManager", ["is_valid", "has_lines"])],
+            heap=True,
+            ignore=LOGGING,
+            list_calls={"self.get_named_results": "results"},
+            pure={"len": "Py.len"},
+            doc="C04/C20: what a named-paths group's results say as a whole (`ResultsManager.is_valid`, `has_lines`): loops over the results "
+                "`get_named_results` returns — an object list of the world; `.is_valid`, `.lines` are fields of the elements."),
+         [("ResultsManager", "is_valid"), ("ResultsManager", "has_lines")]),
     ]
 
 
